@@ -5,6 +5,7 @@ import (
 	"go/token"
 	"go/types"
 	"reflect"
+	"strings"
 
 	"verif/engine"
 )
@@ -49,6 +50,9 @@ func NativeTable() *engine.NativeTable {
 			"go/constant.Val":           f(constant.Val),
 			"go/constant.Compare":       f(constant.Compare),
 			"go/token.NewFileSet":       f(token.NewFileSet),
+			"strings.Title":             f(strings.Title),
+			"strings.ToLower":           f(strings.ToLower),
+			"strings.ToUpper":           f(strings.ToUpper),
 		},
 		Globals: map[string]interface{}{
 			"go/types.Typ":      types.Typ,
